@@ -279,7 +279,7 @@ func (e *Engine) binop(fr *frame, x *ssa.BinOp, reach string) Val {
 		return mk("bvmul")
 	case token.QUO, token.REM:
 		e.panicSite(fr, x, reach, not(eq(sb.T, bvLit(0, n))), "div-by-zero")
-		if _, isLit := e.sc.lit(sb.T); !isLit {
+		if _, isLit := e.sc.lit(sb.T); !isLit && n > 32 {
 			// symbolic divisor: division circuits are expensive for the solvers, so the
 			// operator is an uninterpreted function constrained by sound arithmetic lemmas
 			return Sc{e.divRemUF(x.Op == token.QUO, signed, n, sa.T, sb.T), sortT}
@@ -519,6 +519,13 @@ func (e *Engine) typeAssert(fr *frame, x *ssa.TypeAssert, reach string) Val {
 		val = e.unboxIface(iv, at)
 	}
 	okc = e.sc.define("ta_ok", SBool, okc)
+	if _, isPtr := under(at).(*types.Pointer); isPtr {
+		// modelling assumption: an interface never holds a typed nil pointer
+		if sv, ok := val.(Sc); ok {
+			e.sc.assume(implies(okc, not(eq(sv.T, bvLit(0, 32)))))
+			e.warnOnce("interface values are assumed never to hold typed nil pointers")
+		}
+	}
 	if x.CommaOk {
 		// value is the zero value when the assertion fails
 		z := e.zeroVal(at)
@@ -907,6 +914,8 @@ func (e *Engine) divRemUF(quo, signed bool, n int, x, y string) string {
 		e.sc.assume(implies(and(pos, eq(x, y)), and(eq(q, one), eq(r, zero))))
 		// y == 1
 		e.sc.assume(implies(eq(y, one), and(eq(q, x), eq(r, zero))))
+		// division identity (holds for every y != 0 in two's complement arithmetic)
+		e.sc.assume(implies(not(eq(y, zero)), eq(x, app("bvadd", app("bvmul", q, y), r))))
 	}
 	if quo {
 		return q
